@@ -1,9 +1,12 @@
 package main
 
 import (
+	"context"
 	"encoding/json"
 	"flag"
 	"fmt"
+	"github.com/arloliu/go-secs/v2/hsms"
+	"github.com/arloliu/go-secs/v2/secs2"
 	"math/rand"
 	"os"
 	"sync"
@@ -119,23 +122,29 @@ type c08Step struct {
 }
 
 type c08Line struct {
-	T        string          `json:"t"`
-	ID       int             `json:"id"`
-	Role     string          `json:"role"`
-	Validate bool            `json:"validate"`
-	CutSid   int             `json:"cut_sid"`
-	Mode     string          `json:"mode"`
-	Pre      []peerkit.Frame `json:"pre"`
-	Steps    []c08Step       `json:"steps"`
-	Fault    string          `json:"fault"`
+	T                 string          `json:"t"`
+	ID                int             `json:"id"`
+	Role              string          `json:"role"`
+	Validate          bool            `json:"validate"`
+	CutSid            int             `json:"cut_sid"`
+	Mode              string          `json:"mode"`
+	Pre               []peerkit.Frame `json:"pre"`
+	Steps             []c08Step       `json:"steps"`
+	Fault             string          `json:"fault"`
+	SendAfterDeselect *c08Send        `json:"send_after_deselect,omitempty"`
+}
+
+type c08Send struct {
+	Err      string `json:"err"`
+	PeerData int    `json:"peer_data"`
 }
 
 type c08Scenario struct {
-	id    int
-	mode  string // "barrier": one frame per step; "burst": all frames in one write; "f1": Select+Deselect burst
-	syms  []sym
-	split int // burst mode: write the burst in this many pieces (1 = one write)
-	cutAt int // burst mode: >0 = write the burst in two pieces cut at exactly this byte offset
+	id           int
+	mode         string // "barrier": one frame per step; "burst": all frames in one write; "f1": Select+Deselect burst
+	syms         []sym
+	split        int // burst mode: write the burst in this many pieces (1 = one write)
+	cutAt        int // burst mode: >0 = write the burst in two pieces cut at exactly this byte offset
 	selRspStatus int // active role: status of the Select.rsp that is played first (-1: none)
 }
 
@@ -322,6 +331,96 @@ func step(cut *lab.CUT, p *peerkit.PeerConn, tx []peerkit.Frame, names []string,
 	return st, ok
 }
 
+// c08F1Gated reproduces known finding F1 deterministically for the scripted-peer view: the supervisor goroutine is parked
+// (verif gate sup.step.loaded) while the receive goroutine commits the peer's Select.req AND the Deselect.req that
+// follows it (two sup.commit.cas gates after arming), then released: it now applies the stale echo of the Select after
+// the Deselect commit. The scenario is recorded like any other burst and judged by the same transducer.
+func c08F1Gated(id int, extraSend bool) *c08Line {
+	line := &c08Line{T: "c08", ID: id, Role: "passive", Validate: false, CutSid: cutSid, Mode: "f1gated", Pre: []peerkit.Frame{}, Steps: []c08Step{}}
+	cut, err := lab.NewCUT(lab.Options{Passive: true, Sid: cutSid, T7: 30 * time.Second, T6: 3 * time.Second, T3: 200 * time.Millisecond})
+	if err != nil {
+		line.Fault = err.Error()
+		return line
+	}
+	var mu sync.Mutex
+	armed := false
+	commits := 0
+	parked := make(chan struct{})
+	release := make(chan struct{})
+	var parkOnce, relOnce sync.Once
+	hsms.VerifSetGate(func(name string) {
+		mu.Lock()
+		on := armed
+		mu.Unlock()
+		if !on {
+			return
+		}
+		switch name {
+		case "sup.step.loaded":
+			first := false
+			parkOnce.Do(func() { first = true })
+			if first {
+				close(parked)
+				select {
+				case <-release:
+				case <-time.After(2 * time.Second):
+				}
+			}
+		case "sup.commit.cas":
+			mu.Lock()
+			commits++
+			n := commits
+			mu.Unlock()
+			if n == 3 { // CommitConnected, CommitSelected, CommitSelectLost: both peer commits are in
+				relOnce.Do(func() { close(release) })
+			}
+		}
+	})
+	defer hsms.VerifSetGate(nil)
+	defer relOnce.Do(func() { close(release) })
+	mu.Lock()
+	armed = true
+	mu.Unlock()
+	if err := cut.Open(); err != nil {
+		line.Fault = err.Error()
+		return line
+	}
+	defer cut.Conn.Close()
+	p, err := cut.ConnectPeer(nil, 3*time.Second)
+	if err != nil {
+		line.Fault = err.Error()
+		return line
+	}
+	defer p.Close()
+	select {
+	case <-parked:
+	case <-time.After(time.Second):
+		line.Fault = "the supervisor never reached the gate"
+		return line
+	}
+	r := rand.New(rand.NewSource(int64(id)))
+	tx := []peerkit.Frame{mkFrame(symSelectReq, 0x63000001, r), mkFrame(symDeselectReq, 0x63000002, r)}
+	st, _ := step(cut, p, tx, []string{"SelectReq", "DeselectReq"}, 1)
+	time.Sleep(20 * time.Millisecond) // let the released supervisor drain its queue
+	st.State = cut.State()
+	line.Steps = append(line.Steps, st)
+	if extraSend { // C07's view: a data send after the accepted deselection must be refused and must not reach the peer
+		p.Drain()
+		ctx, cancel := context.WithTimeout(context.Background(), 150*time.Millisecond)
+		_, serr := cut.Conn.SendDataMessage(ctx, 1, 1, false, secs2.A("after-deselect"))
+		cancel()
+		got, _ := p.Barrier(time.Second)
+		n := 0
+		for _, f := range got {
+			if f.ST == peerkit.STData {
+				n++
+			}
+		}
+		line.SendAfterDeselect = &c08Send{Err: errClass(serr), PeerData: n}
+	}
+	return line
+}
+
 func runC08(args []string) int {
 	fs := flag.NewFlagSet("c08", flag.ExitOnError)
 	maxLen := fs.Int("len", 2, "exhaustive sequence length over the alphabet")
@@ -406,6 +505,9 @@ func runC08(args []string) int {
 			close(jobs)
 			wg.Wait()
 		}
+		for k := 0; k < 2; k++ { // known finding F1, reproduced deterministically with gates
+			w.Emit(c08F1Gated(900000+k, *pipeline))
+		}
 		if err := w.Close(); err != nil {
 			fmt.Fprintln(os.Stderr, err)
 			return 2
@@ -447,6 +549,9 @@ func runC08(args []string) int {
 		}
 		close(jobs)
 		wg.Wait()
+	}
+	for k := 0; k < 2; k++ { // known finding F1, reproduced deterministically with gates
+		w.Emit(c08F1Gated(900000+k, *pipeline))
 	}
 	if err := w.Close(); err != nil {
 		fmt.Fprintln(os.Stderr, err)
